@@ -118,18 +118,11 @@ def run(rep, tier, exe, totals):
                                          f"(run tools/c04_small.py regen)")
         res["summary"]["witnesses_rederived"] = len(have)
     # ---- leg S
-    done = set()
-    for w in committed:
-        key = json.dumps(w["table"], sort_keys=True)
-        if key in done:
-            continue
-        done.add(key)
-        for flavour in c04_synth.FLAVOURS:
-            case = c04_synth.run_table(rep, exe, w, flavour, totals)
-            if case is not None:
-                res["synth_objects"] += 1
-                if len(res["samples"]) < 3:
-                    res["samples"].append({"synth": w["class"], "flavour": flavour, "table": w["table"]})
+    case, ntab, r = c04_synth.run_tables(rep, exe, committed, "gas", totals)
+    res["synth_objects"] = ntab
+    res["states"] += r.distinct
+    res["transitions"] += r.generated
+    res["samples"].append({"synth_tables": ntab, "first_table": committed[0]["table"], "class": committed[0]["class"]})
     res["summary"]["synth_objects"] = res["synth_objects"]
     return res
 
